@@ -182,3 +182,22 @@ Definition table (with_weight : bool) (has_tz : bool) (heading : pystr) (jobs : 
   fmt_row cols' (pick names) ++
   fmt_row cols' (pick (map (fun c => dashes (snd c)) cols)) ++
   concat_str (map (fun v => fmt_row cols' (pick (row_cells with_weight v))) (sort_due jobs)).
+
+(* ---- the heading line (Scheduler.__headings + the first line of __str__) -------------------------- *)
+Definition dec_int (z : Z) : pystr := if z <? 0 then DASH :: dec (- z) else dec z.
+Definition opt_str (o : option pystr) : pystr := match o with Some s => s | None => s_none end.
+(* [tz] = check_tzname(tzinfo): None for a naive scheduler; [pname] = the priority function's __name__ (or its type's) *)
+Definition heading_thr (mx : Z) (tz : option pystr) (pname : pystr) : pystr :=
+  lit [109; 97; 120; 95; 101; 120; 101; 99; 61] ++ (if mx =? 0 then s_inf else dec_int mx) ++        (* "max_exec=" *)
+  lit [COMMA; SP; 116; 122; 105; 110; 102; 111; 61] ++ opt_str tz ++                                    (* ", tzinfo=" *)
+  lit [COMMA; SP; 112; 114; 105; 111; 114; 105; 116; 121; 95; 102; 117; 110; 99; 116; 105; 111; 110; 61] ++ pname ++
+  lit [COMMA; SP; HASH; 106; 111; 98; 115; 61].                                                          (* ", #jobs=" *)
+Definition heading_aio (tz : option pystr) : pystr :=
+  lit [116; 122; 105; 110; 102; 111; 61] ++ opt_str tz ++ lit [COMMA; SP; HASH; 106; 111; 98; 115; 61].
+Definition is_some {A} (o : option A) : bool := match o with Some _ => true | None => false end.
+(* str(scheduler) *)
+Definition sched_str_thr (mx : Z) (tz : option pystr) (pname : pystr) (jobs : list jobview) : pystr :=
+  table true (is_some tz) (heading_thr mx tz pname) jobs.
+Definition sched_str_aio (tz : option pystr) (jobs : list jobview) : pystr :=
+  table false (is_some tz) (heading_aio tz) jobs.
+
